@@ -1894,3 +1894,15 @@ M("C11", "fallback-when-data-seen", BASE,
   "        if self._max_timestamp < self._min_timestamp:\n            return 9223372036854775807",
   "        if self._max_timestamp >= self._min_timestamp:\n            return 9223372036854775807",
   "R11.8", "the unbounded upper bound is returned once data was ingested")
+
+JQC = "json_data_source/json_jq_converter.py"
+M("C13", "alternative-answered-from-memo", JQC,
+  '''            variable = f"{out_var}concat{i}{j}"
+            priority_variables.append(variable)
+''',
+  '''            variable = f"{out_var}concat{i}{j}"
+            if j > 0 and key_value is not None and key_path == priority_key_paths[0]:
+                priority_variables.append(priority_variables[0])
+                continue
+            priority_variables.append(variable)
+''', "R13.8", "a fall-back alternative re-uses the first alternative's variable (seed C13-f shape)")
